@@ -16,12 +16,15 @@ Connection level (what production runs):
   store is untouched, every reply is QUEUED or an error, the watch list is untouched.
 * `exec_result_count` — **full**: EXEC answers with exactly one result per queued command, under
   every schedule of the other clients.
-* `exec_equals_sequential_partial` / `txn_equals_sequential_partial` /
-  `exec_equals_outside_partial` / `exec_atomic_partial` — under `NoInterleaving` (and, for the
-  "same as outside MULTI" form, `AllCmd body`): EXEC = the consecutive run.
-  The full statements `C05_exec_atomic` and `C05_exec_equals_outside` are REFUTED for the code as
-  it is: `exec_not_isolated_counterexample`, `watched_key_changed_after_check_counterexample`,
-  `connection_level_command_counterexample`.
+* `exec_equals_sequential_partial` / `txn_equals_sequential_partial` / `exec_atomic_partial` —
+  under `NoInterleaving`: EXEC = the consecutive run.  The full statement `C05_exec_atomic` is
+  REFUTED for the code as it is: `exec_not_isolated_counterexample`,
+  `watched_key_changed_after_check_counterexample`.
+* `exec_equals_outside` — **full** (`C05_exec_equals_outside`): per queued input (data commands
+  and connection-level commands AUTH / ACL … / HELLO / RESET / CLIENT …) EXEC returns what the
+  same input returns outside MULTI, given the dispatcher contract `LocalFaithfulOn`, which the
+  concrete store meets (`kv_local_faithful`, `kv_exec_equals_outside`) since the `fix:` commit;
+  the pinned commit did not: `connection_level_command_pinned_counterexample`.
 * `discard_leaves_store`, `execabort_leaves_store`, `watchfail_leaves_store` — **full**, under
   every schedule: the store after = the store with the other clients' commands only.
 * `watch_detects_change_partial` — if the GET-visible value of a watched key differs from the
@@ -34,7 +37,9 @@ Connection level (what production runs):
 
 Executor level (`CommandExecutor::execute`, simulation path) — all **full**:
 `x_queued_has_no_effect`, `x_exec_equals_sequential`, `x_watch_detects_change` (the snapshot is
-the whole `Value`), `x_discard_leaves_store`, `x_watchfail_leaves_store`, `x_table_*`.
+the whole `Value`), `x_watch_snapshot` + `x_rewatch_keeps_first` (a repeated WATCH keeps the first
+snapshot since the `fix:` commit; pinned commit: `x_rewatch_forgets_change_pinned_counterexample`),
+`x_discard_leaves_store`, `x_watchfail_leaves_store`, `x_table_*`.
 -/
 namespace RedisVerif
 namespace C05
@@ -92,16 +97,27 @@ def C05_exec_atomic : Prop :=
     ((step B sched t s .exec).2.1, (step B sched t s .exec).2.2) ∈
       (splits sched.flatten).map (fun p => serialExec B t s p.1 p.2)
 
+/-- the contract of the EXEC loop's dispatcher for the connection-level commands of a body: it
+    answers them as the connection does outside MULTI and does not touch the store
+    (`execute_connection_level`, since the `fix:` commit) -/
+def LocalFaithfulOn {σ κ γ ρ : Type} (B : Backend σ κ γ ρ) (body : List (Input κ γ)) : Prop :=
+  ∀ c, Input.connLocal c ∈ body → ∀ s, B.exec s c = (s, B.localReply c)
+
+/-- the conclusion of `C05_exec_equals_outside` for one backend and one body -/
+def ExecEqualsOutside {σ κ γ ρ : Type} [DecidableEq ρ] (B : Backend σ κ γ ρ) (t : ConnTxn κ γ ρ)
+    (s : σ) (body : List (Input κ γ)) (sc sched : List (List γ)) : Prop :=
+  (run B t s ((.multi, sc) :: body.map (fun i => (i, sc)) ++ [(.exec, sched)])).2.1 =
+    (run B t s (body.map (fun i => (i, sc)))).2.1 ∧
+  (run B t s ((.multi, sc) :: body.map (fun i => (i, sc)) ++ [(.exec, sched)])).2.2.getLast? =
+    some (.results ((run B t s (body.map (fun i => (i, sc)))).2.2.filterMap unplain))
+
 /-- EXEC returns, per queued command, the result the same command gets when the body is sent
     outside MULTI (bodies of data commands and connection-level commands; nobody interferes). -/
 def C05_exec_equals_outside : Prop :=
-  ∀ (σ κ γ ρ : Type) [DecidableEq ρ] [DecidableEq σ] (B : Backend σ κ γ ρ) (t : ConnTxn κ γ ρ) (s : σ)
+  ∀ (σ κ γ ρ : Type) [DecidableEq ρ] (B : Backend σ κ γ ρ) (t : ConnTxn κ γ ρ) (s : σ)
     (body : List (Input κ γ)) (sc sched : List (List γ)),
     t.inTxn = false → t.watched = [] → body.all isCmdOrLocal = true → NoInterleaving sched →
-    (run B t s ((.multi, sc) :: body.map (fun i => (i, sc)) ++ [(.exec, sched)])).2.1 =
-      (run B t s (body.map (fun i => (i, sc)))).2.1 ∧
-    (run B t s ((.multi, sc) :: body.map (fun i => (i, sc)) ++ [(.exec, sched)])).2.2.getLast? =
-      some (.results ((run B t s (body.map (fun i => (i, sc)))).2.2.filterMap unplain))
+    LocalFaithfulOn B body → ExecEqualsOutside B t s body sc sched
 
 /-- If the value (of whatever type) of a watched key at EXEC differs from its value when WATCH
     was issued (store `s0`), EXEC returns nil and applies nothing.  Concrete store, nobody
@@ -115,14 +131,17 @@ def C05_watch_detects_change : Prop :=
 /-- executor level, trace form with a repeated WATCH: `WATCH k` (store `s0`), … `WATCH k` again
     (store `s1`), `MULTI`, `EXEC` (store `s`): if the value of `k` at EXEC differs from its value
     at the FIRST watch, EXEC returns nil (re-watching a watched key must not forget the change —
-    in Redis it is a no-op). -/
-def C05_x_rewatch_keeps_first : Prop :=
+    in Redis it is a no-op).  `keepFirst` selects the tree: `false` = pinned commit. -/
+def C05_x_rewatch_keeps_first_of (keepFirst : Bool) : Prop :=
   ∀ (s0 s1 s : KV.Store) (k : Nat),
-    let t1 := (xstep KV.xbackend (.simple .ok) ExTxn.idle s0 (.watch [k])).1
-    let t2 := (xstep KV.xbackend (.simple .ok) t1 s1 (.watch [k])).1
-    let t3 := (xstep KV.xbackend (.simple .ok) t2 s1 .multi).1
+    let t1 := (xstepWith keepFirst KV.xbackend (.simple .ok) ExTxn.idle s0 (.watch [k])).1
+    let t2 := (xstepWith keepFirst KV.xbackend (.simple .ok) t1 s1 (.watch [k])).1
+    let t3 := (xstepWith keepFirst KV.xbackend (.simple .ok) t2 s1 .multi).1
     NMap.get s k ≠ NMap.get s0 k →
-    (xstep KV.xbackend (.simple .ok) t3 s .exec).2.2 = .nil
+    (xstepWith keepFirst KV.xbackend (.simple .ok) t3 s .exec).2.2 = .nil
+
+/-- … for the current tree -/
+def C05_x_rewatch_keeps_first : Prop := C05_x_rewatch_keeps_first_of true
 
 /-! ## between MULTI and EXEC -/
 
@@ -282,39 +301,95 @@ theorem txn_equals_sequential_partial (B : Backend σ κ γ ρ) (t : ConnTxn κ 
     (by rw [hw]; intro p hp; simp at hp)).1
   rw [this]
 
-/-- the data commands of a body -/
-def cmdsOf {κ γ : Type} : List (Input κ γ) → List γ
+/-- the commands a body of data / connection-level inputs puts on the queue -/
+def under {κ γ : Type} : List (Input κ γ) → List γ
   | [] => []
-  | .cmd c :: rest => c :: cmdsOf rest
-  | _ :: rest => cmdsOf rest
+  | .cmd c :: rest => c :: under rest
+  | .connLocal c :: rest => c :: under rest
+  | _ :: rest => under rest
 
-theorem allCmd_eq_map {κ γ : Type} (body : List (Input κ γ)) (h : AllCmd body) :
-    body = (cmdsOf body).map Input.cmd := by
+theorem run_queue_mixed (B : Backend σ κ γ ρ) (sc : List (List γ)) (body : List (Input κ γ)) :
+    ∀ (t : ConnTxn κ γ ρ) (s : σ), t.inTxn = true → body.all isCmdOrLocal = true →
+      run B t s (body.map (fun i => (i, sc))) =
+        ({ t with queue := t.queue ++ under body }, s, List.replicate body.length .queued) := by
   induction body with
-  | nil => rfl
+  | nil => intro t s _ _; simp [run, under]
   | cons i rest ih =>
-    have h' : isCmd i = true ∧ AllCmd rest := by simpa [AllCmd] using h
+    intro t s hin hb
+    have h' : isCmdOrLocal i = true ∧ rest.all isCmdOrLocal = true := by simpa using hb
     cases i
-    case cmd c => simp only [cmdsOf, List.map_cons]; rw [← ih h'.2]
-    all_goals (simp [isCmd] at h')
+    case cmd c =>
+      simp only [List.map_cons, run, step, hin, if_true]
+      rw [ih _ _ rfl h'.2]
+      simp [List.replicate_succ, under]
+    case connLocal c =>
+      simp only [List.map_cons, run, step, hin, if_true]
+      rw [ih _ _ rfl h'.2]
+      simp [List.replicate_succ, under]
+    all_goals (simp [isCmdOrLocal] at h')
 
-/-- the full statement `C05_exec_equals_outside` restricted to bodies of data commands -/
+theorem run_outside_mixed (B : Backend σ κ γ ρ) (sc : List (List γ)) (body : List (Input κ γ)) :
+    ∀ (t : ConnTxn κ γ ρ) (s : σ), t.inTxn = false → body.all isCmdOrLocal = true →
+      LocalFaithfulOn B body →
+      run B t s (body.map (fun i => (i, sc))) =
+        (t, (runSeq B s (under body)).1, (runSeq B s (under body)).2.map .plain) := by
+  induction body with
+  | nil => intro t s _ _ _; simp [run, runSeq, under]
+  | cons i rest ih =>
+    intro t s hout hb hl
+    have h' : isCmdOrLocal i = true ∧ rest.all isCmdOrLocal = true := by simpa using hb
+    have hl' : LocalFaithfulOn B rest := fun c hc => hl c (List.mem_cons_of_mem _ hc)
+    cases i
+    case cmd c =>
+      simp only [List.map_cons, run, step, hout, Bool.false_eq_true, if_false, runSeq, under]
+      rw [ih _ _ hout h'.2 hl']
+    case connLocal c =>
+      have hc := hl c (by simp)
+      simp only [List.map_cons, run, step, hout, Bool.false_eq_true, if_false, runSeq, under]
+      rw [ih _ _ hout h'.2 hl', hc s]
+    all_goals (simp [isCmdOrLocal] at h')
+
+/-- **full** (`C05_exec_equals_outside`): for bodies of data commands AND connection-level
+    commands, EXEC returns per queued command what the same input returns outside MULTI, and
+    leaves the same store — given the dispatcher contract `LocalFaithfulOn` (which the pinned
+    commit's EXEC loop did not meet: `connection_level_command_pinned_counterexample`) -/
+theorem exec_equals_outside : C05_exec_equals_outside := by
+  intro σ κ γ ρ _ B t s body sc sched hout hw hb hq hl
+  unfold ExecEqualsOutside
+  rw [run_outside_mixed B sc body t s hout hb hl]
+  rw [List.cons_append]
+  simp only [run]
+  have hm : step B sc t s .multi = ({ t with inTxn := true, queue := [], errors := false }, s, .ok) := by
+    simp [step, hout]
+  rw [hm, run_append, run_queue_mixed B sc body _ s rfl hb]
+  simp only [run, List.nil_append]
+  have := (exec_equals_sequential_partial B sched
+    { inTxn := true, queue := under body, errors := false, watched := t.watched } s rfl rfl hq
+    (by rw [hw]; intro p hp; simp at hp)).1
+  rw [this]
+  refine ⟨rfl, ?_⟩
+  have hl2 : ∀ (a : Reply ρ) (l : List (Reply ρ)) (x : Reply ρ), (a :: (l ++ [x])).getLast? = some x := by
+    intro a l x
+    rw [← List.cons_append, List.getLast?_concat]
+  rw [hl2]
+  simp [List.filterMap_map, Function.comp_def, unplain]
+
+/-- bodies of data commands only need no contract at all -/
 theorem exec_equals_outside_partial (B : Backend σ κ γ ρ) (t : ConnTxn κ γ ρ) (s : σ)
     (body : List (Input κ γ)) (sc sched : List (List γ))
     (hout : t.inTxn = false) (hw : t.watched = []) (hb : AllCmd body) (hq : NoInterleaving sched) :
-    (run B t s ((.multi, sc) :: body.map (fun i => (i, sc)) ++ [(.exec, sched)])).2.1 =
-      (run B t s (body.map (fun i => (i, sc)))).2.1 ∧
-    (run B t s ((.multi, sc) :: body.map (fun i => (i, sc)) ++ [(.exec, sched)])).2.2.getLast? =
-      some (.results ((run B t s (body.map (fun i => (i, sc)))).2.2.filterMap unplain)) := by
-  have hmap : body.map (fun i => (i, sc)) = (cmdsOf body).map (fun c => (Input.cmd c, sc)) := by
-    conv => lhs; rw [allCmd_eq_map body hb]
-    simp [List.map_map, Function.comp_def]
-  rw [hmap]
-  obtain ⟨h1, h2, _⟩ := txn_equals_sequential_partial B t s (cmdsOf body) sc sched hout hw hq
-  rw [h1, h2]
-  refine ⟨rfl, ?_⟩
-  rw [← List.cons_append, List.getLast?_concat]
-  simp [List.filterMap_map, Function.comp_def, unplain]
+    ExecEqualsOutside B t s body sc sched := by
+  have hb' : body.all isCmdOrLocal = true := by
+    simp only [AllCmd, List.all_eq_true] at hb ⊢
+    intro i hi
+    have := hb i hi
+    cases i <;> simp_all [isCmd, isCmdOrLocal]
+  have hl : LocalFaithfulOn B body := by
+    intro c hc
+    simp only [AllCmd, List.all_eq_true] at hb
+    have := hb _ hc
+    simp [isCmd] at this
+  exact exec_equals_outside σ κ γ ρ B t s body sc sched hout hw hb' hq hl
 
 /-! ## DISCARD, EXECABORT, failed WATCH: nothing of the transaction reaches the store -/
 
@@ -551,7 +626,7 @@ def notList (s : KV.Store) (k : Nat) : Bool :=
 theorem get_reply_faithful (s0 s : KV.Store) (k : Nat) (hv : NMap.get s k ≠ NMap.get s0 k)
     (hs : notList s0 k = true ∨ notList s k = true) :
     KV.backend.getReply s k ≠ KV.backend.getReply s0 k := by
-  simp only [KV.backend, KV.exec, notList] at *
+  simp only [KV.backend, KV.backendWith, KV.execWith, notList] at *
   cases h0 : NMap.get s0 k with
   | none =>
     cases h1 : NMap.get s k with
@@ -634,7 +709,7 @@ theorem table_unwatch_in_multi (h : t.inTxn = true) :
   simp [step, h]
 
 /-- connection-level commands: answered by the connection outside MULTI, queued inside (and
-    then replayed through the executor — `connection_level_command_counterexample`) -/
+    answered by the EXEC loop's dispatcher `B.exec` — see `exec_equals_outside`) -/
 theorem table_conn_local (c : γ) :
     step B sc t s (.connLocal c) =
       if t.inTxn then ({ t with queue := t.queue ++ [c] }, s, .queued)
@@ -693,14 +768,29 @@ theorem watched_key_changed_after_check_counterexample : ¬ C05_exec_atomic := b
   revert this
   decide
 
-/-- `MULTI; AUTH x; EXEC` answers `[-ERR AUTH is handled at connection level …]` whereas `AUTH x`
-    outside MULTI answers `+OK`: queued connection-level commands are replayed through the
-    executor, not through the connection's own dispatcher -/
-theorem connection_level_command_counterexample : ¬ C05_exec_equals_outside := by
-  intro h
-  have := h KV.Store Nat KV.Cmd KV.Rep KV.backend ConnTxn.idle [] [.connLocal (.loc .auth)] [] []
-    rfl rfl (by decide) (by decide)
-  revert this
+/-- the concrete store's dispatcher (current tree) meets the contract for every connection-level
+    command it knows -/
+theorem kv_local_faithful (body : List (Input Nat KV.Cmd))
+    (h : ∀ c, Input.connLocal c ∈ body → ∃ l, c = .loc l) : LocalFaithfulOn KV.backend body := by
+  intro c hc s
+  obtain ⟨l, rfl⟩ := h c hc
+  cases l <;> rfl
+
+/-- hence on the concrete store (current tree) `MULTI; …; AUTH x; …; EXEC` answers what the same
+    inputs answer outside MULTI — in particular `MULTI; AUTH x; EXEC` = `[+OK]` -/
+theorem kv_exec_equals_outside (t : ConnTxn Nat KV.Cmd KV.Rep) (s : KV.Store)
+    (body : List (Input Nat KV.Cmd)) (sc sched : List (List KV.Cmd))
+    (hout : t.inTxn = false) (hw : t.watched = []) (hb : body.all isCmdOrLocal = true)
+    (hl : ∀ c, Input.connLocal c ∈ body → ∃ l, c = .loc l) (hq : NoInterleaving sched) :
+    ExecEqualsOutside KV.backend t s body sc sched :=
+  exec_equals_outside _ _ _ _ KV.backend t s body sc sched hout hw hb hq (kv_local_faithful body hl)
+
+/-- PINNED commit (before the `fix:` commit; `KV.backendWith false` = every queued command goes to
+    the shard executor): `MULTI; AUTH x; EXEC` answered `[-ERR AUTH is handled at connection
+    level …]` whereas `AUTH x` outside MULTI answers `+OK` -/
+theorem connection_level_command_pinned_counterexample :
+    ¬ ExecEqualsOutside (KV.backendWith false) ConnTxn.idle [] [.connLocal (.loc .auth)] [] [] := by
+  unfold ExecEqualsOutside
   decide
 
 /-! ## executor level (`transaction_ops.rs`): everything holds at full strength -/
@@ -722,7 +812,7 @@ theorem x_step_body (X : XBackend σ κ γ ρ ν) (okR : ρ) (t : ExTxn κ γ ν
     (hin : t.inTxn = true) (hi : xendsTxn i = false) :
     (xstep X okR t s i).2.1 = s ∧ (xstep X okR t s i).1.inTxn = true ∧
     (xstep X okR t s i).1.watched = t.watched ∧ xisQueuedOrErr (xstep X okR t s i).2.2 = true := by
-  cases i <;> simp_all [xstep, xendsTxn, xisQueuedOrErr]
+  cases i <;> simp_all [xstep, xstepWith, xendsTxn, xisQueuedOrErr]
 
 /-- executor level: between MULTI and EXEC/DISCARD every input leaves the store alone and is
     answered QUEUED or with an error -/
@@ -758,7 +848,7 @@ theorem xstep_exec (X : XBackend σ κ γ ρ ν) (okR : ρ) (t : ExTxn κ γ ν)
     xstep X okR t s .exec =
       if t.watched.any (fun p => decide (X.value s p.1 ≠ p.2)) then (ExTxn.idle, s, .nil)
       else (ExTxn.idle, (xrunQueue X okR s t.queue).1, .results (xrunQueue X okR s t.queue).2) := by
-  simp only [xstep, hin, if_true]
+  simp only [xstep, xstepWith, hin, if_true]
 
 /-- executor level EXEC with unchanged watched keys: the consecutive run of the queue (there is
     no await: nothing can interleave), one result per queued command -/
@@ -794,91 +884,127 @@ theorem x_watchfail_leaves_store (X : XBackend σ κ γ ρ ν) (okR : ρ) (t : E
 
 theorem x_discard_leaves_store (X : XBackend σ κ γ ρ ν) (okR : ρ) (t : ExTxn κ γ ν) (s : σ)
     (hin : t.inTxn = true) : xstep X okR t s .discard = (ExTxn.idle, s, .ok) := by
-  simp [xstep, hin]
+  simp [xstep, xstepWith, hin]
 
 omit [DecidableEq ν] in
-theorem mem_upsert_self (k : κ) (v : Option ν) (m : List (κ × Option ν)) :
-    (k, v) ∈ upsert k v m := by
-  induction m with
-  | nil => simp [upsert]
-  | cons p rest ih =>
-    obtain ⟨k', v'⟩ := p
-    by_cases h : k = k' <;> simp [upsert, h, ih]
-
-omit [DecidableEq ν] in
-theorem mem_upsert_of_ne (k k' : κ) (v v' : Option ν) (m : List (κ × Option ν)) (hne : k' ≠ k)
-    (h : (k', v') ∈ m) : (k', v') ∈ upsert k v m := by
+theorem mem_putIfAbsent_of_mem (k : κ) (v : Option ν) (m : List (κ × Option ν)) (p : κ × Option ν)
+    (h : p ∈ m) : p ∈ putIfAbsent k v m := by
   induction m with
   | nil => simp at h
-  | cons p rest ih =>
-    obtain ⟨k2, v2⟩ := p
-    by_cases hk : k = k2
-    · simp only [upsert, hk, if_true]
-      simp at h
-      rcases h with h | h
-      · exact absurd (hk ▸ h.1) hne
-      · simp [h]
-    · simp only [upsert, hk, if_false]
+  | cons q rest ih =>
+    obtain ⟨k', v'⟩ := q
+    by_cases hk : k = k'
+    · simpa [putIfAbsent, hk] using h
+    · simp only [putIfAbsent, hk, if_false]
       simp at h ⊢
       rcases h with h | h
       · exact Or.inl h
       · exact Or.inr (ih h)
 
-/-- executor level WATCH: every named key is watched with its current value (re-watching
-    overwrites the older snapshot) -/
+omit [DecidableEq ν] in
+theorem putIfAbsent_covers (k : κ) (v : Option ν) (m : List (κ × Option ν)) :
+    (∃ v', (k, v') ∈ m) ∨ (k, v) ∈ putIfAbsent k v m := by
+  induction m with
+  | nil => right; simp [putIfAbsent]
+  | cons q rest ih =>
+    obtain ⟨k', v'⟩ := q
+    by_cases hk : k = k'
+    · left; exact ⟨v', by simp [hk]⟩
+    · rcases ih with ⟨w, hw⟩ | h
+      · left; exact ⟨w, by simp [hw]⟩
+      · right; simp [putIfAbsent, hk, h]
+
+omit [DecidableEq ν] in
+theorem mem_of_mem_putIfAbsent_ne (k k' : κ) (v v' : Option ν) (m : List (κ × Option ν))
+    (hne : k' ≠ k) (h : (k', v') ∈ putIfAbsent k v m) : (k', v') ∈ m := by
+  induction m with
+  | nil => simp [putIfAbsent] at h; exact absurd h.1 hne
+  | cons q rest ih =>
+    obtain ⟨k2, v2⟩ := q
+    by_cases hk : k = k2
+    · simpa [putIfAbsent, hk] using h
+    · simp only [putIfAbsent, hk, if_false] at h
+      simp at h ⊢
+      rcases h with h | h
+      · exact Or.inl h
+      · exact Or.inr (ih h)
+
+/-- executor level WATCH (current tree): the store is untouched, every snapshot taken by an
+    earlier WATCH stands, and every named key is watched — with its current value unless it
+    already was watched -/
 theorem x_watch_snapshot (X : XBackend σ κ γ ρ ν) (okR : ρ) (t : ExTxn κ γ ν) (s : σ)
     (ks : List κ) (hout : t.inTxn = false) :
     (xstep X okR t s (.watch ks)).2.1 = s ∧
-    ∀ k ∈ ks, (k, X.value s k) ∈ (xstep X okR t s (.watch ks)).1.watched := by
-  simp only [xstep, hout, Bool.false_eq_true, if_false, true_and]
+    (∀ p ∈ t.watched, p ∈ (xstep X okR t s (.watch ks)).1.watched) ∧
+    ∀ k ∈ ks, (∃ v, (k, v) ∈ t.watched) ∨
+      (k, X.value s k) ∈ (xstep X okR t s (.watch ks)).1.watched := by
+  simp only [xstep, xstepWith, hout, Bool.false_eq_true, if_false, true_and, watchPut, if_true]
+  have hA : ∀ (ks : List κ) (w : List (κ × Option ν)) (p : κ × Option ν), p ∈ w →
+      p ∈ ks.foldl (fun w k => putIfAbsent k (X.value s k) w) w := by
+    intro ks
+    induction ks with
+    | nil => intro w p h; simpa using h
+    | cons a rest ih =>
+      intro w p h
+      simp only [List.foldl_cons]
+      exact ih _ p (mem_putIfAbsent_of_mem a _ w p h)
+  refine ⟨fun p hp => hA ks t.watched p hp, ?_⟩
   intro k hk
-  suffices h : ∀ (ks : List κ) (w : List (κ × Option ν)),
-      (k ∈ ks ∨ (k, X.value s k) ∈ w) →
-      (k, X.value s k) ∈ ks.foldl (fun w k => upsert k (X.value s k) w) w from
-    h ks t.watched (Or.inl hk)
+  suffices h : ∀ (ks : List κ) (w : List (κ × Option ν)), k ∈ ks →
+      (∃ v, (k, v) ∈ w) ∨ (k, X.value s k) ∈ ks.foldl (fun w k => putIfAbsent k (X.value s k) w) w from
+    h ks t.watched hk
   intro ks
   induction ks with
-  | nil => intro w h; simpa using h
+  | nil => intro w h; simp at h
   | cons a rest ih =>
     intro w h
     simp only [List.foldl_cons]
-    apply ih
     by_cases ha : k = a
-    · right; rw [ha]; exact mem_upsert_self a _ w
-    · rcases h with h | h
-      · simp [ha] at h; exact Or.inl h
-      · right; exact mem_upsert_of_ne a k _ _ w ha h
+    · subst ha
+      rcases putIfAbsent_covers k (X.value s k) w with h1 | h1
+      · exact Or.inl h1
+      · exact Or.inr (hA rest _ _ h1)
+    · have hr : k ∈ rest := by simpa [ha] using h
+      rcases ih (putIfAbsent a (X.value s a) w) hr with ⟨v, hv⟩ | h1
+      · exact Or.inl ⟨v, mem_of_mem_putIfAbsent_ne a k _ v w ha hv⟩
+      · exact Or.inr h1
 
 /-- decision table, executor level -/
 theorem x_table_nested_multi (X : XBackend σ κ γ ρ ν) (okR : ρ) (t : ExTxn κ γ ν) (s : σ)
     (h : t.inTxn = true) : xstep X okR t s .multi = (t, s, .err .nestedMulti) := by
-  simp [xstep, h]
+  simp [xstep, xstepWith, h]
 
 theorem x_table_watch_in_multi (X : XBackend σ κ γ ρ ν) (okR : ρ) (t : ExTxn κ γ ν) (s : σ)
     (ks : List κ) (h : t.inTxn = true) :
     xstep X okR t s (.watch ks) = (t, s, .err .watchInMulti) := by
-  simp [xstep, h]
+  simp [xstep, xstepWith, h]
 
 theorem x_table_without_multi (X : XBackend σ κ γ ρ ν) (okR : ρ) (t : ExTxn κ γ ν) (s : σ)
     (h : t.inTxn = false) :
     xstep X okR t s .exec = (t, s, .err .execWithoutMulti) ∧
     xstep X okR t s .discard = (t, s, .err .discardWithoutMulti) := by
-  simp [xstep, h]
+  simp [xstep, xstepWith, h]
 
 /-- at the executor level there is no queue-time rejection: every command, unknown ones
     included, is queued (no EXECABORT on this path) -/
 theorem x_table_everything_is_queued (X : XBackend σ κ γ ρ ν) (okR : ρ) (t : ExTxn κ γ ν) (s : σ)
     (c : γ) (h : t.inTxn = true) :
     xstep X okR t s (.cmd c) = ({ t with queue := t.queue ++ [.cmd c] }, s, .queued) := by
-  simp [xstep, h]
+  simp [xstep, xstepWith, h]
 
 end
 
-/-- executor level: `SET k 0; WATCH k; SET k 1; WATCH k; MULTI; …; EXEC` succeeds — the second
-    WATCH overwrote the snapshot (`HashMap::insert`), the change since the first WATCH is
-    forgotten.  (What IS proved: `x_watch_snapshot` + `x_watch_detects_change` — every change
-    since the LAST watch of the key is detected.) -/
-theorem x_rewatch_forgets_change_counterexample : ¬ C05_x_rewatch_keeps_first := by
+/-- **full** (`C05_x_rewatch_keeps_first`, current tree): `WATCH k; …; WATCH k; MULTI; EXEC` —
+    a change of `k` since the FIRST watch aborts EXEC -/
+theorem x_rewatch_keeps_first : C05_x_rewatch_keeps_first := by
+  intro s0 s1 s k
+  simp [xstepWith, watchPut, putIfAbsent, ExTxn.idle, KV.xbackend]
+  intro h
+  simp [h]
+
+/-- PINNED commit (before the `fix:` commit): `SET k 0; WATCH k; SET k 1; WATCH k; MULTI; …;
+    EXEC` succeeded — the second WATCH overwrote the snapshot (`HashMap::insert`) -/
+theorem x_rewatch_forgets_change_pinned_counterexample : ¬ C05_x_rewatch_keeps_first_of false := by
   intro h
   have := h [(1, .str [48])] [(1, .str [49])] [(1, .str [49])] 1 (by decide)
   revert this
